@@ -10,10 +10,16 @@
     (TwigProofs/Lemmas/MapOrder.lean).  `SchemaSem` collects them as propositions;
     `C03_sites_order_independent` says that every extracted site is covered by one of them or is
     on the allow-list of unobservable sites (written justification in `MapRanges.allowList`).
-  * Three schemas hold only under a side condition on the keys; the sites that use them are genuine
-    findings of the fixed tree.  Following the ground rules the full-strength theorem stays
-    (`C03_sites_order_independent`, hypothesis `okStrict`), the `_partial` theorem carries the explicit
-    exclusions, and `_counterexample` theorems give the witnesses.
+  * After the repairs 4cfb654 (hash literal in source order), 2cbbaa1 + 5b1997c (sortedMapKeys breaks ties
+    of the printed form by %T and %#v), 43314f9 (merge visits sortedMapKeys), c0e7993 (NaN keys first) the
+    only site that is not unconditionally order independent is `sortedMapKeys` itself: a hand-written
+    comparator decides, and it cannot tell apart two pointers to equal composites (known finding
+    `pointer-key-equal-content`).  Following the ground rules the full-strength theorem stays
+    (`C03_sites_order_independent`, hypothesis `okStrict`), `C03_open_sites_current` says that exactly this
+    one site separates the current facts from `okStrict`, the `_partial` theorem carries the exclusion, and
+    `C03_sorted_keys_counterexample` is the witness.  Everything else is full strength:
+    `C03_sorted_keys_total_order` (int/uint/float-with-NaN/string keys), `C03_hash_literal_last_wins`,
+    `C03_merge_sorted`, `C03_insertion_order`.
 -/
 import TwigModel.MapOrder
 import TwigProofs.Lemmas.MapOrder
@@ -56,6 +62,7 @@ def SchemaSem : Schema → Prop
       SortSpec less sort₁ → SortSpec less sort₂ → ∀ (o₁ o₂ : List (κ × ν)), o₁.Perm o₂ →
       (∀ a ∈ o₁.map Prod.fst, ∀ c ∈ o₁.map Prod.fst, less c a = false → less a c = false → a = c) →
       collectThenSort sort₁ o₁ = collectThenSort sort₂ o₂
+  | .guardedFallback => False
   | .orderSensitive => False
   | .unknown => False
 
@@ -99,7 +106,8 @@ end MapRanges
 /-- **C03, map iteration (full strength).** If the extracted facts pass `okStrict`, every iteration over a
     Go map in package twig either matches a schema whose result is the same for every iteration order
     (for all maps, key and value types), or is one of the allow-listed sites that cannot reach rendered
-    output.  On the fixed tree `okStrict` does *not* hold: see the `_partial` theorem and the counterexamples. -/
+    output.  On the current tree `okStrict` fails at exactly one site, `sortedMapKeys#0`
+    (`C03_open_sites_current`): see the `_partial` theorem and `C03_sorted_keys_counterexample`. -/
 theorem C03_sites_order_independent (F : List RawSite) (hF : MapRanges.okStrict F = true) :
     ∀ s ∈ F, ((Schema.ofString s.schema).invariant = true ∧ SchemaSem (Schema.ofString s.schema))
       ∨ listed allowList s = true := by
@@ -130,12 +138,30 @@ theorem C03_sites_order_independent_partial (F : List RawSite) (hF : MapRanges.o
   · have h' := Bool.and_eq_true _ _ |>.mp h
     exact Or.inr (Or.inr ⟨h'.1, schemaSem_of_conditional _ h'.1, h'.2⟩)
 
-/-- the facts extracted from the working tree satisfy the (partial) predicate -/
+/-- the facts extracted from the working tree satisfy the predicate (one recorded exclusion) -/
 theorem C03_facts_current : MapRanges.ok TwigGen.MapRanges.current = true := by decide
 
-/-- the comparator the extractor found in `sortedMapKeys` is the one modelled by `keyLess` -/
+/-- … and `sortedMapKeys#0` is the only site that keeps them from the full-strength predicate: the three
+    sites repaired since the first delivery (hash literal, the two `merge()` loops) are no longer open -/
+theorem C03_open_sites_current :
+    (TwigGen.MapRanges.current.filter fun s => !siteStrict s).map (fun s => (s.func, s.ordinal))
+      = [("sortedMapKeys", 0)] := by decide
+
+/-- the comparator the extractor found in `sortedMapKeys` is the one modelled by `keyLess`
+    (int, uint, float with NaN first, string; else fmt.Sprint, then %T, then %#v) -/
 theorem C03_sortcmp_current :
     MapRanges.sortCmpOk TwigGen.MapRanges.sortKeyCases TwigGen.MapRanges.sortKeyFallback = true := by decide
+
+/-- for-loop, `first`, `keys` and both `merge()` loops consume the slice `sortedMapKeys` returns as it is -/
+theorem C03_sorted_uses_current :
+    MapRanges.sortedUsesOk TwigGen.MapRanges.sortKeyFunc TwigGen.MapRanges.sortedKeyUses = true
+      ∧ TwigGen.MapRanges.sortedKeyUses.length = 5 := by decide
+
+/-- every hash node the parser builds carries an order slice filled in step with its items, so the
+    `guardedFallback` range in `EvaluateExpression` is not taken for template source (allow-list entry) -/
+theorem C03_hash_builders_current :
+    MapRanges.hashOk TwigGen.MapRanges.hashBuilders TwigGen.MapRanges.hashNoOrderReach = true
+      ∧ TwigGen.MapRanges.hashBuilders.any (fun b => b.2.1 == "inStep") = true := by decide
 
 /-- non-vacuity: the predicate accepts a non-trivial table and rejects order-sensitive rows; the four
     rows are what the extractor reports for the pinned tree's defects (regression instance) -/
@@ -146,137 +172,270 @@ example : MapRanges.ok [
     ("extension.go", "CoreExtension.filterKeys", 1, "MapKeys", "reflect:rv", "orderSensitive", ""),
     ("node.go", "ForNode.renderForLoop", 0, "MapKeys", "reflect:val", "orderSensitive", "")] = false := by decide
 example : MapRanges.ok [("x.go", "f", 0, "range", "map[string]int", "unknown", "")] = false := by decide
+/-- regression: the rows of the three sites as they were before 4cfb654 / 43314f9 (conditional schemas,
+    formerly excluded by name) are rejected now, each of them -/
+example : MapRanges.ok [("extension.go", "CoreExtension.functionMerge", 1, "MapKeys", "reflect:baseRv", "keyedCopy", "")] = false := by decide
+example : MapRanges.ok [("extension.go", "CoreExtension.functionMerge", 3, "MapKeys", "reflect:argRv", "keyedCopy", "")] = false := by decide
+example : MapRanges.ok [("render.go", "RenderContext.EvaluateExpression", 0, "range", "map[Node]Node", "evalKeyedCopy", "")] = false := by decide
+/-- … and so is the unguarded form of the hash-literal fallback, and a comparator without the tie-breaks -/
+example : MapRanges.ok [("render.go", "RenderContext.EvaluateExpression", 0, "range", "map[Node]Node", "orderSensitive", "")] = false := by decide
+example : MapRanges.sortCmpOk TwigGen.MapRanges.sortKeyCases "fmt.Sprint" = false := by decide
+example : MapRanges.hashOk [("Parser.parseMapExpression", "notInStep", "")] [] = false := by decide
+example : MapRanges.hashOk [("GetHashNode", "noOrder", "")] ["GetHashNode", "Parser.parseMapExpression"] = false := by decide
 
-/-! ## the conditional schemas really are conditional: witnesses -/
+/-! ## the conditional schemas really are conditional (regression: why the `keyedCopy` / `evalKeyedCopy`
+    sites had to go; no site of the current tree uses these schemas) -/
 
 /-- keyedCopy with colliding transformed keys: `merge(m, …)` on `map[interface{}]…{1: "a", "1": "b"}`
-    stores both entries under the string key "1"; the two visiting orders leave different values. -/
+    stored both entries under the string key "1" while ranging `MapKeys`; the two visiting orders leave
+    different values.  (Before 43314f9.) -/
 theorem C03_keyedCopy_counterexample :
     keyedCopy (κ := Nat) (ν := Nat) (κ' := Nat) (fun _ => 1) (fun _ v => v) GoMap.empty [(10, 100), (11, 200)] 1
       ≠ keyedCopy (fun _ => 1) (fun _ v => v) GoMap.empty [(11, 200), (10, 100)] 1 := by decide
 
-/-- evalKeyedCopy with colliding evaluated keys: the hash literal `{'a': 1, 'a': 2}` -/
+/-- evalKeyedCopy with colliding evaluated keys: the hash literal `{'a': 1, 'a': 2}` while its items were
+    ranged as a Go map.  (Before 4cfb654.) -/
 theorem C03_hashLiteral_counterexample :
     (evalKeyedCopy (κ := Nat) (ν := Nat) (κ' := Nat) (ν' := Nat) (ε := Unit) (fun e => .ok (0, e.2)) GoMap.empty [(0, 1), (1, 2)]).toOption.map (· 0)
       ≠ (evalKeyedCopy (κ := Nat) (ν := Nat) (κ' := Nat) (ν' := Nat) (ε := Unit) (fun e => .ok (0, e.2)) GoMap.empty [(1, 2), (0, 1)]).toOption.map (· 0) := by decide
+
+/-! ## hash literals: source order, last duplicate wins -/
+
+/-- **C03, hash literal.** Since 4cfb654 the items are evaluated in the order they are written (no map is
+    ranged: `evalHashLiteral` has no order argument, so the result — value or error — is a function of
+    the literal).  When evaluation succeeds, the entry under a key is the value of the *last* item whose
+    key evaluates to it. -/
+theorem C03_hash_literal_last_wins {κ ν κ' ν' ε : Type} [DecidableEq κ'] (ev : κ × ν → Except ε (κ' × ν'))
+    (items : List (κ × ν)) (m : GoMap κ' ν') (h : evalHashLiteral ev items = .ok m) (k : κ') :
+    m k = ((okVals ev items).reverse.find? (fun e => e.1 = k)).map Prod.snd := by
+  unfold evalHashLiteral at h
+  cases hall : items.all (evOk ev) with
+  | false =>
+    have := evalKeyedCopy_err ev items GoMap.empty hall
+    rw [h] at this; simp [Except.toOption] at this
+  | true =>
+    rw [evalKeyedCopy_ok ev items GoMap.empty hall] at h
+    cases h
+    rw [copyAll_apply]
+    cases (okVals ev items).reverse.find? (fun e => decide (e.1 = k)) <;> simp [GoMap.empty]
+
+/-- instance: `{'a': 1, 'a': 2}` evaluates to a map with `a ↦ 2`; `{'a': 1, 'b': 1/0}` fails -/
+example : (evalHashLiteral (κ := Nat) (ν := Nat) (κ' := Nat) (ν' := Nat) (ε := Unit) (fun e => .ok (0, e.2)) [(0, 1), (1, 2)]).toOption.map (· 0)
+    = some (some 2) := by decide
+example : (evalHashLiteral (κ := Nat) (ν := Nat) (κ' := Nat) (ν' := Nat) (ε := Unit)
+    (fun e => if e.2 = 0 then .error () else .ok (e.1, e.2)) [(0, 1), (1, 0)]).toOption.isNone = true := by decide
 
 /-! ## sorted keys -/
 
 namespace MapOrder
 
-/-- no two distinct keys of a kind compared by `fmt.Sprint` print alike -/
-def printCollision (ks : List GoKey) : Bool :=
-  ks.any fun a => ks.any fun c => a != c && !a.byValue && !c.byValue && a.printed == c.printed
+/-- the three strings the comparator looks at for a key of a kind compared through fmt -/
+def GoKey.strings : GoKey → Bytes × Bytes × Bytes
+  | .other _ _ p t g => (p, t, g)
+  | _ => ([], [], [])
 
-end MapOrder
+/-- two distinct keys of a kind compared through fmt, at least one of them equal to itself (so that its
+    entry can be looked up), agree on `fmt.Sprint`, `%T` and `%#v` -/
+def syntaxCollision (ks : List GoKey) : Bool :=
+  ks.any fun a => ks.any fun c =>
+    a != c && !a.byValue && !c.byValue && (a.selfEq || c.selfEq) && a.strings == c.strings
 
-/-- **sortedMapKeys determines the order** for maps whose key type is of an integer, unsigned or string
-    kind: any two outcomes of `sort.Slice` (sorted permutations of the keys — package sort promises no
-    more, it is not stable) are equal, so neither the order in which `MapKeys` hands out the keys nor the
-    internals of the sort can show. -/
-theorem C03_sorted_keys_total_order (ks s₁ s₂ : List GoKey) (hh : Homogeneous ks)
-    (hv : ∀ k ∈ ks, k.byValue = true)
-    (h₁ : SortedBy keyLess s₁) (h₂ : SortedBy keyLess s₂) (p₁ : s₁.Perm ks) (p₂ : s₂.Perm ks) : s₁ = s₂ := by
-  apply sorted_unique keyLess ks s₁ s₂ _ h₁ h₂ p₁ p₂
-  intro a ha c hc hca hac
-  exact keyLess_connected_byValue a c (hh a ha c hc) (hv a ha) hca hac
-
-/-- **any key type, with the exclusion**: the order is determined unless two distinct keys of a kind
-    compared through `fmt.Sprint` print alike. -/
-theorem C03_sorted_keys_total_order_partial (ks s₁ s₂ : List GoKey) (hh : Homogeneous ks)
-    (hx : printCollision ks = false)
-    (h₁ : SortedBy keyLess s₁) (h₂ : SortedBy keyLess s₂) (p₁ : s₁.Perm ks) (p₂ : s₂.Perm ks) : s₁ = s₂ := by
-  apply sorted_unique keyLess ks s₁ s₂ _ h₁ h₂ p₁ p₂
-  intro a ha c hc hca hac
-  cases hbv : a.byValue with
-  | true => exact keyLess_connected_byValue a c (hh a ha c hc) hbv hca hac
-  | false =>
-    have hcls := hh a ha c hc
-    cases a <;> simp [GoKey.byValue] at hbv
-    cases c <;> simp [GoKey.cls] at hcls
-    rename_i i p j q
-    simp only [keyLess] at hca hac
-    have hpq : p = q := bytesLt_connected p q hac hca
-    by_cases e : GoKey.other i p = GoKey.other j q
-    · exact e
-    · exfalso
-      have : printCollision ks = true := by
-        unfold printCollision
-        rw [List.any_eq_true]
-        refine ⟨_, ha, ?_⟩
-        rw [List.any_eq_true]
-        refine ⟨_, hc, ?_⟩
-        simp [GoKey.byValue, GoKey.printed, hpq]
-        intro hij
-        exact e (by rw [hij, hpq])
-      rw [hx] at this; cases this
-
-/-- **the full-strength statement fails**: a `map[interface{}]…` with the keys `1` and `"1"` — both print
-    as `1` — has two different sorted permutations; the for-loop order over such a map is random
-    (reproduced on the implementation, finding `iface-key-print-collision`). -/
-theorem C03_sorted_keys_counterexample :
-    let k₁ := GoKey.other 0 (b "1")   -- int 1
-    let k₂ := GoKey.other 1 (b "1")   -- string "1"
-    Homogeneous [k₁, k₂] ∧ SortedBy keyLess [k₁, k₂] ∧ SortedBy keyLess [k₂, k₁] ∧ [k₁, k₂] ≠ [k₂, k₁] := by
-  refine ⟨?_, ?_, ?_, by decide⟩
-  · intro a ha c hc
-    simp at ha hc
-    rcases ha with rfl | rfl <;> rcases hc with rfl | rfl <;> rfl
-  · unfold SortedBy; simp [keyLess, b, bytesLt_irrefl]
-  · unfold SortedBy; simp [keyLess, b, bytesLt_irrefl]
-
-/-- non-vacuity of the hypotheses of the two theorems above -/
-example : Homogeneous [GoKey.str (b "b"), GoKey.str (b "a")] ∧ SortedBy keyLess (sortKeys [GoKey.str (b "b"), GoKey.str (b "a")]) :=
-  ⟨by intro a ha c hc; simp at ha hc; rcases ha with rfl | rfl <;> rcases hc with rfl | rfl <;> rfl,
-   (sortKeys_spec _).2⟩
-example : printCollision [GoKey.other 0 [116], GoKey.other 1 [102]] = false := by decide
-example : printCollision [GoKey.other 0 [49], GoKey.other 1 [49]] = true := by decide
-
-/-! ## insertion order and repeated renders of a for-loop over a map -/
-
-namespace MapOrder
-
-/-- the keys of a map are such that `sortedMapKeys` determines their order -/
+/-- `sortedMapKeys` determines everything that can be observed of the order of these keys -/
 def KeysDetermined (ks : List GoKey) : Prop :=
-  ∀ a ∈ ks, ∀ c ∈ ks, keyLess c a = false → keyLess a c = false → a = c
+  ∀ a ∈ ks, ∀ c ∈ ks, keyLess c a = false → keyLess a c = false → a.obs = c.obs
+
+theorem obs_eq_or_collide (a c : GoKey) (h : a.rank = c.rank) :
+    a.obs = c.obs ∨ (a ≠ c ∧ a.byValue = false ∧ c.byValue = false ∧ (a.selfEq || c.selfEq) = true
+      ∧ a.strings = c.strings) := by
+  by_cases e : a = c
+  · exact Or.inl (by rw [e])
+  · cases ha : a.byValue <;> cases hc : c.byValue
+    · -- both compared through fmt
+      cases a <;> simp [GoKey.byValue] at ha
+      cases c <;> simp [GoKey.byValue] at hc
+      case other.other i se p t g j se' q u h' =>
+        simp only [GoKey.rank, Prod.mk.injEq, true_and] at h
+        obtain ⟨rfl, rfl, rfl⟩ := h
+        cases se <;> cases se'
+        · exact Or.inl rfl
+        · exact Or.inr ⟨e, rfl, rfl, rfl, rfl⟩
+        · exact Or.inr ⟨e, rfl, rfl, rfl, rfl⟩
+        · exact Or.inr ⟨e, rfl, rfl, rfl, rfl⟩
+    · cases a <;> cases c <;> simp [GoKey.byValue, GoKey.rank] at ha hc h
+    · cases a <;> cases c <;> simp [GoKey.byValue, GoKey.rank] at ha hc h
+    · exact Or.inl (obs_eq_of_rank_eq_byValue a c ha hc h)
+
+/-- int-, uint-, float- (NaN or not) and string-keyed maps satisfy `KeysDetermined` -/
+theorem keysDetermined_of_byValue (ks : List GoKey) (hv : ∀ k ∈ ks, k.byValue = true) : KeysDetermined ks :=
+  fun a ha c hc hca hac => keyLess_connected_byValue a c (hv a ha) (hv c hc) hca hac
+
+/-- any keys without a `syntaxCollision` satisfy it -/
+theorem keysDetermined_of_noCollision (ks : List GoKey) (hx : syntaxCollision ks = false) : KeysDetermined ks := by
+  intro a ha c hc hca hac
+  rcases obs_eq_or_collide a c (rank_eq_of_tied a c hca hac) with h | ⟨hne, hav, hcv, hse, hstr⟩
+  · exact h
+  · exfalso
+    have : syntaxCollision ks = true := by
+      unfold syntaxCollision
+      rw [List.any_eq_true]
+      refine ⟨a, ha, ?_⟩
+      rw [List.any_eq_true]
+      refine ⟨c, hc, ?_⟩
+      simp [hav, hcv, hstr, hne]
+      simpa using hse
+    rw [hx] at this; cases this
 
 end MapOrder
+
+/-- **sortedMapKeys determines the order** for maps whose key type is of an integer, unsigned, float or
+    string kind: any two outcomes of `sort.Slice` (sorted permutations of the keys — package sort promises
+    no more, it is not stable) agree on everything that can be observed of the keys, so neither the order
+    in which `MapKeys` hands out the keys nor the internals of the sort can show.  `obs` forgets only which
+    of several NaN keys is which: they print alike and `MapIndex` finds none of their entries (`mapIndex`). -/
+theorem C03_sorted_keys_total_order (ks s₁ s₂ : List GoKey) (hv : ∀ k ∈ ks, k.byValue = true)
+    (h₁ : SortedBy keyLess s₁) (h₂ : SortedBy keyLess s₂) (p₁ : s₁.Perm ks) (p₂ : s₂.Perm ks) :
+    s₁.map GoKey.obs = s₂.map GoKey.obs :=
+  sorted_map_unique keyLess GoKey.obs keyLess keyLess_obs ks s₁ s₂ (keysDetermined_of_byValue ks hv) h₁ h₂ p₁ p₂
+
+/-- **any key type, with the exclusion**: the observable order is determined unless two distinct keys of a
+    kind compared through fmt, not both unequal to themselves, agree on `fmt.Sprint`, `%T` and `%#v`. -/
+theorem C03_sorted_keys_total_order_partial (ks s₁ s₂ : List GoKey) (hx : syntaxCollision ks = false)
+    (h₁ : SortedBy keyLess s₁) (h₂ : SortedBy keyLess s₂) (p₁ : s₁.Perm ks) (p₂ : s₂.Perm ks) :
+    s₁.map GoKey.obs = s₂.map GoKey.obs :=
+  sorted_map_unique keyLess GoKey.obs keyLess keyLess_obs ks s₁ s₂ (keysDetermined_of_noCollision ks hx) h₁ h₂ p₁ p₂
+
+/-- when every key is equal to itself (no NaN anywhere) "observably equal" is "equal": the sorted slice
+    itself is determined -/
+theorem C03_sorted_keys_total_order_exact (ks s₁ s₂ : List GoKey) (hx : syntaxCollision ks = false)
+    (hs : ∀ k ∈ ks, k.selfEq = true)
+    (h₁ : SortedBy keyLess s₁) (h₂ : SortedBy keyLess s₂) (p₁ : s₁.Perm ks) (p₂ : s₂.Perm ks) : s₁ = s₂ := by
+  have h := C03_sorted_keys_total_order_partial ks s₁ s₂ hx h₁ h₂ p₁ p₂
+  have e₁ : s₁.map GoKey.obs = s₁ := by
+    rw [List.map_congr_left (g := id) (fun k hk => obs_of_selfEq k (hs k (p₁.mem_iff.mp hk))), List.map_id]
+  have e₂ : s₂.map GoKey.obs = s₂ := by
+    rw [List.map_congr_left (g := id) (fun k hk => obs_of_selfEq k (hs k (p₂.mem_iff.mp hk))), List.map_id]
+  rw [← e₁, ← e₂, h]
+
+/-- **the full-strength statement fails** (known finding `pointer-key-equal-content`): two pointers to equal
+    structs, `&S{"a","b"}` twice, as keys of a `map[*S]…` or `map[interface{}]…` — fmt prints a top-level
+    pointer to a composite by content, so `fmt.Sprint` (`&{a b}`), `%T` (`*main.S`) and `%#v` agree.  Both
+    arrangements are sorted, and they differ observably (each key finds its own entry). -/
+theorem C03_sorted_keys_counterexample :
+    let k₁ := GoKey.other 0 true [38, 123, 97, 32, 98, 125] [42, 83] [38, 83, 123, 125]
+    let k₂ := GoKey.other 1 true [38, 123, 97, 32, 98, 125] [42, 83] [38, 83, 123, 125]
+    SortedBy keyLess [k₁, k₂] ∧ SortedBy keyLess [k₂, k₁]
+      ∧ [k₁, k₂].map GoKey.obs ≠ [k₂, k₁].map GoKey.obs ∧ syntaxCollision [k₁, k₂] = true := by
+  refine ⟨?_, ?_, by decide, by decide⟩
+  · unfold SortedBy; simp [keyLess, bytesLt_irrefl]
+  · unfold SortedBy; simp [keyLess, bytesLt_irrefl]
+
+/-- non-vacuity of the hypotheses of the theorems above -/
+example : SortedBy keyLess (sortKeys [GoKey.str (b "b"), GoKey.str (b "a")]) := (sortKeys_spec _).2
+/-- regression (2cbbaa1): `1`, `"1"`, `int64(1)`, `1.0` in a `map[interface{}]…` all print `1`; their type
+    names `int`, `string`, `int64`, `float64` decide, the order is float64, int, int64, string -/
+example :
+    let ki := GoKey.other 0 true [49] [105, 110, 116] [49]
+    let ks := GoKey.other 1 true [49] [115, 116, 114, 105, 110, 103] [34, 49, 34]
+    let kl := GoKey.other 2 true [49] [105, 110, 116, 54, 52] [49]
+    let kf := GoKey.other 3 true [49] [102, 108, 111, 97, 116, 54, 52] [49]
+    syntaxCollision [ki, ks, kl, kf] = false ∧ SortedBy keyLess [kf, ki, kl, ks] := by
+  refine ⟨by decide, ?_⟩
+  unfold SortedBy; decide
+/-- regression (5b1997c): `[2]string{"a b","c"}` and `{"a","b c"}` print alike and have one type; `%#v` decides -/
+example : syntaxCollision [GoKey.other 0 true [97] [84] [34, 97, 32, 98, 34], GoKey.other 1 true [97] [84] [34, 97, 34, 32]] = false := by decide
+/-- several NaN keys (c0e7993): tied by the comparator, no collision, observably equal -/
+example : syntaxCollision [GoKey.nan 0, GoKey.nan 1, GoKey.float 3] = false
+    ∧ [GoKey.nan 0, GoKey.nan 1].map GoKey.obs = [GoKey.nan 1, GoKey.nan 0].map GoKey.obs
+    ∧ SortedBy keyLess [GoKey.nan 1, GoKey.nan 0, GoKey.float 3] := by
+  refine ⟨by decide, by decide, ?_⟩
+  unfold SortedBy; decide
+/-- NaN inside interface keys: tied on all three strings, but neither is equal to itself — no collision -/
+example : syntaxCollision [GoKey.other 0 false [78] [102] [78], GoKey.other 1 false [78] [102] [78]] = false := by decide
+
+/-- regression: **before c0e7993** the float case was `a.Float() < b.Float()`, which is no strict weak order
+    once a NaN key is present (`none`): `[0, NaN, 1]` and `[NaN, 0, 1]` are both "sorted", and the relation
+    is not even negatively transitive, so package sort's contract does not apply (the implementation showed
+    `0,2,NaN,1`). -/
+theorem C03_nan_keys_counterexample_before_fix :
+    let lessF : Option Int → Option Int → Bool := fun a c =>
+      match a, c with | some x, some y => decide (x < y) | _, _ => false
+    SortedBy lessF [some 0, none, some 1] ∧ SortedBy lessF [none, some 0, some 1]
+      ∧ (lessF none (some 1) = false ∧ lessF (some 0) none = false ∧ lessF (some 0) (some 1) = true) := by
+  refine ⟨?_, ?_, by decide⟩ <;> (unfold SortedBy; decide)
+
+/-! ## insertion order and repeated renders of a for-loop over a map; merge() -/
 
 /-- a map built from the same entries in another insertion order is the same map -/
 theorem C03_insertion_order_map {κ ν : Type} [DecidableEq κ] (es₁ es₂ : List (κ × ν))
     (hp : es₁.Perm es₂) (hu : UniqueKeys es₁) : ofEntries es₁ = ofEntries es₂ :=
   schema_copyAll_perm GoMap.empty es₁ es₂ hp hu
 
+theorem mapIndex_perm {ν : Type} (es₁ es₂ : List (GoKey × ν)) (hp : es₁.Perm es₂) (hu : UniqueKeys es₁) :
+    mapIndex es₁ = mapIndex es₂ := by
+  funext k
+  unfold mapIndex
+  rw [C03_insertion_order_map es₁ es₂ hp hu]
+
 /-- **C03, insertion order / repeated render.** The for-loop over a map renders the same bytes for every
     insertion order of the entries, for every order in which `MapKeys` returns the keys (both are the
     permutation `es₁ ~ es₂`), and for every two runs of the unstable sort (`sort₁`, `sort₂`). -/
 theorem C03_insertion_order {ν : Type} (sort₁ sort₂ : List GoKey → List GoKey)
-    (hs₁ : SortSpec keyLess sort₁) (hs₂ : SortSpec keyLess sort₂) (body : GoKey → ν → Bytes)
+    (hs₁ : SortSpec keyLess sort₁) (hs₂ : SortSpec keyLess sort₂) (body : GoKey → Option ν → Bytes)
     (es₁ es₂ : List (GoKey × ν)) (hp : es₁.Perm es₂) (hu : UniqueKeys es₁)
     (hk : KeysDetermined (es₁.map Prod.fst)) :
     renderForMap sort₁ body es₁ = renderForMap sort₂ body es₂ := by
   unfold renderForMap
-  have hkeys : sort₁ (es₁.map Prod.fst) = sort₂ (es₂.map Prod.fst) :=
-    collectSortBy_sem GoKey ν keyLess sort₁ sort₂ hs₁ hs₂ es₁ es₂ hp hk
-  rw [hkeys, C03_insertion_order_map es₁ es₂ hp hu]
+  obtain ⟨p₁, o₁⟩ := hs₁ (es₁.map Prod.fst)
+  obtain ⟨p₂, o₂⟩ := hs₂ (es₂.map Prod.fst)
+  have hkeys : (sort₁ (es₁.map Prod.fst)).map GoKey.obs = (sort₂ (es₂.map Prod.fst)).map GoKey.obs :=
+    sorted_map_unique keyLess GoKey.obs keyLess keyLess_obs _ _ _ hk o₁ o₂ p₁ (p₂.trans (hp.map _).symm)
+  have hbody : ∀ (es : List (GoKey × ν)) (l : List GoKey),
+      l.flatMap (fun k => body k.obs (mapIndex es k)) = (l.map GoKey.obs).flatMap (fun k => body k (mapIndex es k)) := by
+    intro es l
+    rw [List.flatMap_map]
+    congr 1
+    funext k
+    simp [mapIndex_obs]
+  rw [hbody es₁ (sort₁ (es₁.map Prod.fst)), hbody es₂ (sort₂ (es₂.map Prod.fst)), hkeys, mapIndex_perm es₁ es₂ hp hu]
 
-namespace MapOrder
+/-- **C03, merge().** `merge()` over a reflected map stores the entries under `toString(key)` while
+    visiting `sortedMapKeys`: the result is the same for every insertion order, `MapKeys` order and run of
+    the sort — *also when several keys have the same string form* (the one later in key order wins; this
+    is where the `keyedCopy` loop of the first delivery depended on the iteration order). -/
+theorem C03_merge_sorted {ν κ' : Type} [DecidableEq κ'] (sort₁ sort₂ : List GoKey → List GoKey)
+    (hs₁ : SortSpec keyLess sort₁) (hs₂ : SortSpec keyLess sort₂) (g : GoKey → κ') (dst : GoMap κ' ν)
+    (es₁ es₂ : List (GoKey × ν)) (hp : es₁.Perm es₂) (hu : UniqueKeys es₁)
+    (hk : KeysDetermined (es₁.map Prod.fst)) :
+    mergeSorted sort₁ g dst es₁ = mergeSorted sort₂ g dst es₂ := by
+  unfold mergeSorted
+  obtain ⟨p₁, o₁⟩ := hs₁ (es₁.map Prod.fst)
+  obtain ⟨p₂, o₂⟩ := hs₂ (es₂.map Prod.fst)
+  have hkeys : (sort₁ (es₁.map Prod.fst)).map GoKey.obs = (sort₂ (es₂.map Prod.fst)).map GoKey.obs :=
+    sorted_map_unique keyLess GoKey.obs keyLess keyLess_obs _ _ _ hk o₁ o₂ p₁ (p₂.trans (hp.map _).symm)
+  have hstep : ∀ (es : List (GoKey × ν)) (l : List GoKey),
+      l.foldl (mergeStep g es) dst = (l.map GoKey.obs).foldl (mergeStep g es) dst := by
+    intro es l
+    rw [List.foldl_map]
+    congr 1
+    funext m k
+    rw [mergeStep_obs]
+  have hes : mergeStep g es₁ = mergeStep g es₂ := by
+    funext m k
+    unfold mergeStep
+    rw [mapIndex_perm es₁ es₂ hp hu]
+  rw [hstep es₁ (sort₁ (es₁.map Prod.fst)), hstep es₂ (sort₂ (es₂.map Prod.fst)), hkeys, hes]
 
-/-- string-keyed, int-keyed … maps satisfy `KeysDetermined` -/
-theorem keysDetermined_of_byValue (ks : List GoKey) (hh : Homogeneous ks) (hv : ∀ k ∈ ks, k.byValue = true) :
-    KeysDetermined ks :=
-  fun a ha c hc hca hac => keyLess_connected_byValue a c (hh a ha c hc) (hv a ha) hca hac
-
-end MapOrder
-
-/-- non-vacuity: the hypotheses of `C03_insertion_order` hold for `{"b": 1, "a": 2}` built both ways -/
+/-- non-vacuity: the hypotheses of `C03_insertion_order` / `C03_merge_sorted` hold for `{"b": 1, "a": 2}`
+    built both ways, and for the repaired witness `{1: …, "1": …}` of a `map[interface{}]…` -/
 example : UniqueKeys [(GoKey.str [98], 1), (GoKey.str [97], 2)] ∧
     [(GoKey.str [98], 1), (GoKey.str [97], 2)].Perm [(GoKey.str [97], 2), (GoKey.str [98], 1)] ∧
     KeysDetermined ([(GoKey.str [98], 1), (GoKey.str [97], 2)].map Prod.fst) ∧ SortSpec keyLess sortKeys := by
   refine ⟨by decide, List.Perm.swap _ _ _, ?_, sortKeys_spec⟩
   apply keysDetermined_of_byValue
-  · intro a ha c hc; simp at ha hc; rcases ha with rfl | rfl <;> rcases hc with rfl | rfl <;> rfl
-  · intro k hk; simp at hk; rcases hk with rfl | rfl <;> rfl
+  intro k hk; simp at hk; rcases hk with rfl | rfl <;> rfl
+example : KeysDetermined ([(GoKey.other 0 true [49] [105, 110, 116] [49], 1),
+    (GoKey.other 1 true [49] [115, 116, 114, 105, 110, 103] [34, 49, 34], 2)].map Prod.fst) :=
+  keysDetermined_of_noCollision _ (by decide)
 
 /-! ## date formats -/
 
